@@ -203,13 +203,14 @@ def step (s : St) (toks : List String) : St × String :=
       let (l', c', pd', st) := runRounds drvCaps (roundsFuel pd.rest) s.l c pd
       finished s id l' c' pd' st
     | _, _ => (s, "bad-op")
-  | ["resp", id, u, rs, hl, blen] =>
+  | ["resp", id, u, rs, hl, blen, keep] =>
     match getConn s id, parseUrl u, rs.toInt?, hl.toNat?, blen.toNat? with
     | some c, some u, some rs, some hl, some blen =>
       if c.closed || (getPend s id).isSome || rs < -1 then (s, "bad-op") else
       let c0 := setContext s.l c u rs hl none
       let (l', c', res) := connWrite drvCaps s.l c0 (List.replicate (hl + blen) 0)
-      let c' := if res.status = .closed then { c' with closed := true } else c'
+      -- `keep = close`: the client asked for the connection to be closed after this response
+      let c' := if res.status = .closed || keep == "close" then { c' with closed := true } else c'
       (putConn { s with l := l' } id c', showW "r" false l' c' res.delivered res.evs res.status)
     | _, _, _, _, _ => (s, "bad-op")
   | ["conn", id] =>
